@@ -6,6 +6,7 @@ OpenMP runtime and the hardware do is not a theorem (see the check's exploration
 -/
 import StirVerif.C18.Proofs
 import StirVerif.C18.ProofsRethread
+import StirVerif.C18.ProofsCacheComplete
 
 namespace StirVerif.C18
 
@@ -35,6 +36,61 @@ theorem C18_cache_returns_spec (spec : Nat → Int) (reqs : List (List Nat)) (sc
     (∀ e ∈ (Cache.run spec (Cache.init reqs) sched).returned, e.2.2 = spec e.2.1) ∧
     (∀ e ∈ (Cache.run spec (Cache.init reqs) sched).store, e.2 = spec e.1) :=
   cache_returns_spec spec reqs sched
+
+/-- "without lost or duplicated contributions", the other half: under every schedule and at every moment the requests a
+    thread has been answered are an initial part of the requests it made, in the order it made them — no row request is
+    answered twice, skipped or overtaken, however the other threads' finds, computations and inserts are interleaved
+    (same model and same exclusion of a concurrent `clear_cache()` as `C18_cache_returns_spec`). -/
+theorem C18_cache_answers_in_order (spec : Nat → Int) (reqs : List (List Nat)) (sched : List Nat) (u : Nat)
+    (hu : u < reqs.length) :
+    ∃ rest, reqs[u]? = some ((Cache.run spec (Cache.init reqs) sched).answered u ++ rest) :=
+  cache_answers_prefix spec reqs sched u hu
+
+/-- a thread that has come to the end of its loop has been answered exactly its requests, each once -/
+theorem C18_cache_all_answered (spec : Nat → Int) (reqs : List (List Nat)) (sched : List Nat) (u : Nat)
+    (hf : (Cache.run spec (Cache.init reqs) sched).threadFinished u = true) :
+    reqs[u]? = some ((Cache.run spec (Cache.init reqs) sched).answered u) :=
+  cache_all_answered_when_finished spec reqs sched u hf
+
+/-- "… or deadlock": in every state of the cache protocol (reachable or not) a thread that has requests left can take its
+    next step; the locks are only held inside the atomic `find` / `insert` steps, so no thread ever waits for another -/
+theorem C18_cache_never_blocked (spec : Nat → Int) (s : Cache) (u : Nat) (hu : u < s.pcs.length)
+    (hf : s.threadFinished u = false) : (s.step spec u).isSome = true :=
+  cache_never_blocked spec s u hu hf
+
+/-- non-vacuity: two threads asking for the same two rows in opposite order both finish, each answered in its own order -/
+example :
+    let s := Cache.run (fun k => (k : Int)) (Cache.init [[1, 2], [2, 1]]) [0, 1, 0, 1, 0, 1, 0, 1, 0, 1, 0, 1, 0, 1]
+    s.threadFinished 0 = true ∧ s.threadFinished 1 = true ∧ s.answered 0 = [1, 2] ∧ s.answered 1 = [2, 1] := by
+  decide
+
+/-- a broken variant for comparison: a `find` that, on a miss, waits for "whoever is computing the row" instead of computing
+    it itself loses the request when nobody is (the thread goes straight to its next request) -/
+def Cache.stepSkipOnMiss (spec : Nat → Int) (s : Cache) (t : Nat) : Option Cache :=
+  match s.pcs[t]? with
+  | some (todo, .find k) =>
+    match s.store.lookup k with
+    | some _ => s.step spec t
+    | none => some { s with pcs := s.pcs.set t (todo, .ret 0) }
+  | _ => s.step spec t
+
+def Cache.runSkipOnMiss (spec : Nat → Int) (s : Cache) : List Nat → Cache
+  | [] => s
+  | t :: ts => Cache.runSkipOnMiss spec ((s.stepSkipOnMiss spec t).getD s) ts
+
+theorem C18_cache_skip_on_miss_loses_requests :
+    let s := Cache.runSkipOnMiss (fun k => (k : Int)) (Cache.init [[1, 2]]) [0, 0, 0, 0, 0, 0]
+    s.threadFinished 0 = true ∧ s.answered 0 = [] := by
+  decide
+
+/-- the trace validator that ties the per-thread request machine to the recorded events accepts a racing double computation
+    (two threads miss the same key, both insert, the second insert finds the entry present) … -/
+example : validateCacheProtocol [⟨0, "pm.cache.find", 7, 0⟩, ⟨1, "pm.cache.find", 7, 0⟩, ⟨0, "pm.cache.insert", 7, 0⟩,
+    ⟨1, "pm.cache.insert", 7, 1⟩, ⟨0, "pm.cache.find", 7, 1⟩] = none := by decide
+/-- … and rejects a request abandoned after a miss, an insert without a miss, and a miss that is never followed by an insert -/
+example : (validateCacheProtocol [⟨0, "pm.cache.find", 7, 0⟩, ⟨0, "pm.cache.find", 8, 1⟩, ⟨0, "pm.cache.find", 9, 0⟩]).isSome = true := by decide
+example : (validateCacheProtocol [⟨0, "pm.cache.insert", 7, 0⟩]).isSome = true := by decide
+example : (validateCacheProtocol [⟨0, "pm.cache.find", 7, 0⟩]).isSome = true := by decide
 
 /-- "up to floating-point reassociation of the per-thread partial sums … without lost or duplicated contributions":
     whatever thread each work item is given to, the sum over the threads of the per-thread sums is the sum over the items.
